@@ -69,9 +69,9 @@ PROPS["C14"] = dict(scen=[("core", "histories:SeqEclMask", True), ("core", "hist
 
 # what each check claims, in its own words (goes into MANIFEST.json)
 CLAIMS = {
- "C01": ("TLC model-checks the staged build machine (every option combination over a small input set, decode path against construction path) and validates Build events of the real crate: all 160 (version, level) cells x boundary lengths (capacity, capacity-1, smallest length needing the version, 0/1, half) x rotating modes and forced/automatic masks; each symbol is decoded by the ISO reference procedure written in TLA+ (format bits, unmasking, zig-zag read-out, de-interleaving, strict single-segment parse) and must give back the input.",
+ "C01": ("TLC model-checks the staged build machine (every option combination over a small input set, decode path against construction path) and validates Build events of the real crate: all 160 (version, level) cells x boundary lengths (capacity, capacity-1, smallest length needing the version, 0/1, half) x rotating modes and forced/automatic masks, every payload length 0..260 (0..1200 thorough) per mode, structured contents (long runs, 000/999 groups, pad look-alikes, repeated records); each symbol is decoded by the ISO reference procedure written in TLA+ (format bits, unmasking, zig-zag read-out, de-interleaving, strict single-segment parse) and must give back the input.",
          "Payload bytes are sampled (seeded); configuration cells are enumerated and counted. The decoder is the specification's own (QRDecode.tla), independent of every table of the crate."),
- "C02": ("Block count, block sizes (short blocks first), interleaving, remainder bits and all syndromes are read off every built symbol of all 160 cells and compared with the geometry-derived layout and GF(256) generated from 0x11D; Corrupt events apply seeded error patterns of weight 1, t/2 and t = floor(ec/2) per block (burst and spread) and a Berlekamp-Massey/Chien/Forney decoder written in TLA+ must recover every block; the crate's block-group table is judged cell by cell through the hook tier.",
+ "C02": ("Block count, block sizes (short blocks first), interleaving, remainder bits and all syndromes are read off every built symbol of all 160 cells and compared with the geometry-derived layout and GF(256) generated from 0x11D; Corrupt events apply seeded error patterns of weight 1, t/2 and t = floor(ec/2) per block (burst and spread) and a Berlekamp-Massey/Chien/Forney decoder written in TLA+ must recover every block; byte payloads whose data blocks mirror each other up to a compensating difference (against digest-keyed shortcuts); the crate's block-group table is judged cell by cell through the hook tier.",
          "Error patterns are sampled; the algebraic guarantee rests on the syndrome check, which is made on every block of every event. ISO Table 9 (EC codewords per block, number of blocks) is typed into the specification and cross-checked by MC_Lemmas against the geometric module count."),
  "C03": ("Every module of every built symbol that lies in a function pattern is compared with the closed-form geometry of QRLayout.tla (finder rings, separators, timing parity, Annex E alignment centres in closed form, dark module); the tail of the 177x177 backing array must stay default; blank symbols of all 40 versions and every mask sweep alone are judged through the hook tier.",
          "Exhaustive over (version, coordinate); payload, level and mask are sampled per cell (payload-independence is observed, not proved)."),
@@ -91,19 +91,19 @@ CLAIMS = {
          "Non-termination is bounded by a 30 s watchdog, not proved. Memory safety is what Rust's checks plus the enabled assertions trap."),
  "C11": ("The recorder hook gives the eight candidates as the selection loop saw them; TLC computes the documented penalty of each (runs, 1011101 windows, 2x2 blocks, dark ratio; line-scan formulation proved equal to the per-cell one on sample matrices) and the emitted mask must be an arg-min; a forced mask must override. Inputs are selected for close calls (700 closest of 12 000 small symbols). Design level: the selection loop is model-checked over all score vectors in a small range and proved for unbounded scores with Apalache. Public-API fallback: eight forced-mask builds plus the automatic one.",
          "Payload-sampled: only a flipped arg-min is observable. Ties are allowed."),
- "C12": ("MC_Render model-checks the register machine and the model's own SVG renderer (all 512 3x3 matrices x setter programs) against the same predicates; the harness generates every builder program up to length 2 (3 in thorough, sampled) over 21 abstract calls plus random longer ones, all 40 versions x 6 shapes, a pool of 27 image strings; a roxmltree + kurbo sensor projects each document (well-formedness, viewBox, rectangles, per layer the cell of every sub-path, colours, image href) and TLC judges the projection against the register machine RegsAfter(program).",
+ "C12": ("MC_Render model-checks the register machine and the model's own SVG renderer (all 512 3x3 matrices x setter programs) against the same predicates; the harness generates every builder program up to length 2 (3 in thorough, sampled) over 21 abstract calls plus random longer ones, all 40 versions x 6 shapes, hand-made matrices (all dark, all light, stripes, border, sparse), custom shape callbacks, renderer sessions exported by TLC, a pool of 27 image strings; a roxmltree + kurbo sensor projects each document (well-formedness, viewBox, rectangles, per layer the cell of every sub-path, colours, image href) and TLC judges the projection against the register machine RegsAfter(program).",
          "XML and SVG path syntax are read by the sensor (roxmltree, kurbo), not by TLA+. hrefs are compared modulo XML attribute-value normalisation."),
  "C13": ("Pixmaps of 6 shapes x versions x margins x 6 fit modes x 4 colour pairs are projected to a palette and a per-cell palette index (plus cell uniformity at integer scale); TLC computes the expected side and premultiplied colours from the program and judges every cell centre (>= 4 px per module, or square at integer scale) and every cell of square symbols; the PNG is decoded independently and must equal the pixmap.",
          "resvg's rasterisation is observed, not modelled; translucent module colours are outside the claimed domain."),
- "C14": ("TLC explores every interleaving of setters and builds of 2 builders x 2 threads (length 4/5) and every sequential program of one builder (length 6/7), exports them, and the harness replays each on real QRBuilders with persistent worker threads; every build is judged on the registers the MODEL holds for that builder, and equal registers must give equal results across all histories; seeded concurrent programs on 1..16 threads add shared builders and all three renderers (read-only, repeatable, distinguishing different codes); renderer sessions exported by TLC from RenderSession.tla (setter calls and renderings interleaved on one builder object) must render like a fresh builder given the same calls.",
+ "C14": ("TLC explores every interleaving of setters and builds of 2 builders x 2 threads (length 4/5) and every sequential program of one builder (length 6/7), exports them, and the harness replays each on real QRBuilders with persistent worker threads; every build is judged on the registers the MODEL holds for that builder, and equal registers must give equal results across all histories; seeded concurrent programs on 1..16 threads add shared builders and all three renderers (read-only, repeatable, distinguishing different codes); renderer sessions exported by TLC from RenderSession.tla (setter calls and renderings interleaved on one builder object) must render like a fresh builder given the same calls; a soak run repeats one build and one rendering 6 000 / 70 000 times and every result must equal the first.",
          "Real OS schedules are sampled; the exhaustive interleaving is of the model, whose thread-locality is what per-thread validation binds to the code."),
  "C15": ("Type labels of every module of every built symbol (and of the blank symbols, and before/after each mask sweep) against the region map of QRLayout.tla; the number of data labels against 8 x total codewords + remainder bits.",
          "Modules where an alignment pattern lies on a timing line may carry either label (ISO assigns them to both)."),
- "C16": ("All 40 sizes x 2 / 6 symbols: line count, line width, alphabet, one-module light border, and every module decoded back in place from the (top, bottom) reading; MC: decode o render = id on all 512 3x3 matrices for the model's renderer.",
+ "C16": ("All 40 sizes x 2 / 6 symbols plus hand-made matrices: line count, line width, alphabet, one-module light border, and every module decoded back in place from the (top, bottom) reading; MC: decode o render = id on all 512 3x3 matrices for the model's renderer.",
          "The upper half of the first line is outside the picture and unconstrained."),
  "C17": ("wasm.rs compiled on the host through a guarded #[path] module. TLC exports every setter program over a 36-call alphabet (well-formed and malformed values) up to length 2 / 3; each is replayed under catch_unwind; the export must be empty exactly when the specification says the content cannot be encoded, equal to the native output (string equality when no malformed value is involved, field by field modulo havoc registers otherwise), and the native settings used for comparison must be the model's NativeOf(W_After(program)).",
          "Needs the hook tier (exit 2 without it). A malformed value leaves its register unspecified in the model."),
- "C18": ("Default frames for all 40 versions x 3 shapes x margins 0..16 (one event per (shape, margin) holding all versions: centred, module-aligned, below 40%, clear of the finder boxes, image centred and not larger, side monotone in the version); 420 / 6 000 explicit size / gap / position overrides on quarter-module and arbitrary 3-decimal values with tolerances derived from the two-decimal printing.",
+ "C18": ("Default frames for all 40 versions x 3 shapes x margins 0..16 (and 17, 33, 64, 120) (one event per (shape, margin) holding all versions: centred, module-aligned, below 40%, clear of the finder boxes, image centred and not larger, side monotone in the version); 420 / 6 000 explicit size / gap / position overrides on quarter-module and arbitrary 3-decimal values with tolerances derived from the two-decimal printing.",
          "Overrides are sampled."),
  "C19": ("TLC explores the to_file machine under every fault class x strike offset and exports the 13 behaviours; each is replayed with real faults (missing directory, directory, path below a file, /proc, over-long name, symlink loop, /dev/full, RLIMIT_FSIZE at byte k) for both renderers on four option sets; Ok must coincide with 'no fault struck' and with the file holding exactly the in-memory rendering.",
          "Write-time offsets are abstracted to five classes (0, 1, middle, len-1, len); 64 offsets are swept in thorough."),
